@@ -10,6 +10,7 @@ import env
 import framework as fw
 import samlbuild as sb
 import sp_common as spc
+import sp_history
 import tlc
 
 KINDS = ('digest', 'sigvalue', 'wrongkey')
@@ -131,6 +132,8 @@ def main():
                       'signature absent/valid/invalid x plain/encrypted), each rendered with real signatures; "invalid" concretised '
                       'as broken digest, altered SignatureValue or foreign key; every scenario is non-trivial (the table is total)')
     chk.assumptions = list(fw.TOOL_ASSUMPTIONS)
+    # the same receiver over time: SPHistory.tla
+    sp_history.run(chk, 'C02')
     sb.cleanup()
     return chk.finish()
 
@@ -138,6 +141,8 @@ def main():
 def do_replay(path):
     spc.init_worker()
     j = json.load(open(path))
+    if 'hist' in j['detail']['case']:
+        return sp_history.do_replay(j)
     obs = replay(j['detail']['case'])
     print(json.dumps(dict((k, v) for k, v in obs.items() if k != 'doc'), indent=1))
     return 0
